@@ -25,6 +25,37 @@ def sh(cmd, cwd=None, env=None, timeout=3600):
     return subprocess.run(cmd, shell=True, cwd=cwd, env=e, capture_output=True, text=True, timeout=timeout)
 
 
+def sig_of(line):
+    """VIOLATION property=.. replay=..  # <signature> (n case(s)) -> signature"""
+    t = line.split('#', 1)[-1].strip()
+    return t.rsplit(' (', 1)[0]
+
+
+def baseline_sigs(check, tier):
+    """violation signatures of the check on the UNCHANGED /repo for the current /verif tree (cached): a seed only counts
+    as detected when it adds a signature the baseline does not have"""
+    import hashlib
+    head = sh('git -C /repo rev-parse HEAD').stdout.strip()
+    vh = sh('git -C /verif rev-parse HEAD').stdout.strip()
+    dirty = sh('git -C /verif status --porcelain spec harness known_findings.json').stdout
+    mt = ''
+    if dirty.strip():
+        mt = sh("find /verif/spec /verif/harness -type f -newer /verif/.git/HEAD -printf '%p %T@\\n' | sort").stdout
+    key = hashlib.sha1((head + vh + dirty + mt + tier).encode()).hexdigest()
+    cache = Path('/verif/build/baseline')
+    cache.mkdir(parents=True, exist_ok=True)
+    f = cache / f'{check}.json'
+    if f.exists():
+        d = json.loads(f.read_text())
+        if d.get('key') == key:
+            return set(d['sigs']), d['exit']
+    rc = sh(f'bin/verif check {check} --tier {tier}', cwd='/verif', timeout=7200,
+            env={'VERIF_MUTANT': 'seed-baseline'})
+    sigs = sorted({sig_of(ln) for ln in rc.stdout.splitlines() if ln.startswith('VIOLATION')})
+    f.write_text(json.dumps(dict(key=key, sigs=sigs, exit=rc.returncode)))
+    return set(sigs), rc.returncode
+
+
 def demo_cmd(seed):
     if (seed / 'demo.py').exists():
         return f'/venv/bin/python {seed / "demo.py"}'
@@ -71,7 +102,12 @@ def main():
                 rc = sh(f'bin/verif check {c} --tier {tier}', cwd='/verif', timeout=7200,
                         env={'VERIF_REPO': str(wt), 'VERIF_MUTANT': 'seed-' + seed.name})
                 viol = [ln for ln in rc.stdout.splitlines() if ln.startswith('VIOLATION')]
-                out['checks'][c] = dict(exit=rc.returncode, violations=viol[:6],
+                base, bexit = baseline_sigs(c, tier)
+                new = [ln for ln in viol if sig_of(ln) not in base]
+                ex = rc.returncode
+                if ex == 1 and not new:
+                    ex = 0          # only violations the unchanged tree shows too: the seed itself is not detected
+                out['checks'][c] = dict(exit=ex, raw_exit=rc.returncode, baseline_exit=bexit, violations=new[:6],
                                         tail=rc.stdout.splitlines()[-1:] + rc.stderr.splitlines()[-3:])
     finally:
         sh(f'git -C /repo worktree remove --force {wt}')
